@@ -79,9 +79,8 @@ def run(ck: Check, prog: Program) -> None:
         for c in calls_in(n):
             if isinstance(c.func, ast.Attribute) and c.func.attr == 'pop' and dotted(c.func.value) == 'self._matches' and c.args and dotted(c.args[0]) == ep:
                 gs = guard_edges(ccfg, n)
-                ok_g = any(classify_cond(prog, cu, g.src.ast).kind == 'truthy' and norm(g.src.ast) in (f'self._matches[{ep}]',) and
-                           (g.label == 'F') != classify_cond(prog, cu, g.src.ast).negated for g in gs) or \
-                    any(isinstance(g.src.ast, ast.Subscript) and norm(g.src.ast) == f'self._matches[{ep}]' and g.label == 'F' for g in gs)
+                from ..util import canon_text
+                ok_g = any(canon_text(cu, g.src.ast) == f'self._matches[{ep}]' and g.label == 'F' for g in gs)
                 if not ok_g:
                     problems.append(('ROTATE', 'endpoint dropped although it still has patches for other methods', n.line,
                                      f'`{norm(c)}` removes the whole endpoint under {[norm(g.src.ast) + ":" + g.label for g in gs]}: it must be guarded '
@@ -163,11 +162,35 @@ def run(ck: Check, prog: Program) -> None:
         if isinstance(n.ast, ast.Return) and isinstance(n.ast.value, ast.Call) and n.id in cfg.reachable(pn):
             idv = kwarg(n.ast.value, 'id', 0)
             reply_ids.append(norm(idv) if idv is not None else '<missing>')
-            names = {x.id for x in ast.walk(idv) if isinstance(x, ast.Name)} if idv is not None else set()
-            if idp not in names:
+            # every value the reply id can take: the request id, or (only when the request id is None) something else
+            from ..flow import Flow as _FlowR
+            flr = _FlowR(cfg)
+            carries = False
+            stray = []
+            for al in (flr.alts(n, idv) if idv is not None else []):
+                if dotted(al.expr) == idp:
+                    carries = True
+                    continue
+                none_known = False
+                for c_, pol_ in al.guards:
+                    k_ = classify_cond(prog, mr, c_)
+                    if k_.kind == 'is-none' and (not k_.negated) == pol_:
+                        subj = k_.subject
+                        if subj == idp:
+                            none_known = True
+                        elif subj and '.' not in subj:
+                            cn = cfg.nodes_of(c_)
+                            tested = c_.left if isinstance(c_, ast.Compare) else c_
+                            leafs = {dotted(b_.expr) for b_ in flr.alts(cn[0], tested)} if cn else set()
+                            if leafs == {idp}:
+                                none_known = True
+                if not none_known:
+                    stray.append(al.text()[:70])
+            if not carries or stray:
                 ck.finding('REPLY-ID', mr.qualname, 'reply does not carry the request id', mr.module.rel, n.line,
-                           f'`{norm(n.ast.value)[:90]}` must carry the id of the request')
-    ck.ob('REPLY-ID', 'every matched reply is built from the request id', all(idp in r for r in reply_ids), sample={'reply_ids': reply_ids})
+                           f'`{norm(n.ast.value)[:90]}` must carry the id of the request'
+                           f'{"; it can be " + "; ".join(stray) + " although the request has an id" if stray else ""}')
+    ck.ob('REPLY-ID', 'every matched reply is built from the request id', not any(f_.rule == 'REPLY-ID' and 'does not carry' in f_.construct for f_ in ck.findings), sample={'reply_ids': reply_ids})
     # ---- _on_request: endpoint fallbacks and element-wise batches -----------------------------------
     cfg2 = CFG(onr, prog)
     p2: List[Tuple[str, str, int, str]] = []
